@@ -737,7 +737,6 @@ func genKnown(r *vhlib.Rng) []*Scenario {
 		[][]string{{`{"a":7,"a":8,"z":"p"}`, `{"a":9,"z":"q"}`, `{"a":10,"z":"r"}`}}, []Op{q(2)}))
 	sc = handScenario("dupkey_dict", "known:duplicate_key_shifts_column", 0,
 		[][]string{{`{"a":7,"a":8}`, `{"a":9}`}}, []Op{q(10000)})
-	sc.NoE2E = true // record 0 is listed under two dictionary words: Go's map order decides which one is returned
 	add(sc)
 	add(handScenario("dupkey_flatten_collision", "known:duplicate_key_shifts_column", 1,
 		[][]string{{`{"a.b":1,"a":{"b":2},"c":"x"}`, `{"a.b":3,"c":"y"}`, `{"a":{"b":4},"c":"z"}`}}, []Op{{Kind: "rotate"}, q(1)}))
@@ -784,32 +783,32 @@ func genKnown(r *vhlib.Rng) []*Scenario {
 	add(sc)
 	sc = handScenario("empty_field_name", "known:empty_field_name_value_lost", 0,
 		[][]string{{`{"":"v","x":1}`, `{"x":2}`}}, []Op{q(10000)})
-	sc.NoE2E = true // the value is in the column block (byte level agrees); it is lost in the result assembly, outside the model
+	add(sc)
+	// a search over all columns of a segment that has the column "" (before the repair: nil reader set, crash)
+	sc = handScenario("empty_field_name_search", "known:empty_field_name_value_lost", 0,
+		[][]string{{`{"":"needle","x":1}`, `{"x":2}`}}, []Op{{Kind: "rotate"}, {Kind: "query", Text: `needle`, Nulls: true}})
+	sc.Expect[len(sc.Ops)-1] = []uint64{sc.Events[0].Ts}
+	sc.NoE2E = true
 	add(sc)
 	// integer literals beyond int64 whose overflow jsonparser.ParseInt does not notice
-	// (the JSON number tokeniser is outside the model: not sent to Coq)
 	sc = handScenario("bigint_wrap_min", "known:big_integer_literal_wraps", 0,
 		[][]string{{`{"a":82500000000000000000}`, `{"a":1}`}}, []Op{q(10000)})
-	sc.ToCoq = false
 	add(sc)
 	for k := 0; k < 2; k++ {
 		lit := fmt.Sprintf("82%018d", r.U64()%1000000000000000000)
 		sc = handScenario(fmt.Sprintf("bigint_wrap_rand%d", k), "known:big_integer_literal_wraps", 0,
 			[][]string{{fmt.Sprintf(`{"a":%s,"b":"x"}`, lit), `{"a":2.5}`}}, []Op{q(10000)})
-		sc.ToCoq = false
 		add(sc)
 	}
 	// a first block of field-less events: FlushSegStats fails, the flush is abandoned half way
 	sc = handScenario("fieldless_first_block", "known:fieldless_first_block_breaks_flush", 0,
 		[][]string{{`{}`}, {`{"a":"x"}`}}, []Op{q(10000)})
-	sc.ToCoq = false // the abandoned flush (file protocol) is outside the column model
 	add(sc)
 	// latent: only with a cardinality limit below 4 (test knob SetCardinalityLimit; the default is 501).
 	// block 1: column m2 has a bloom, holds only a null, is stored raw -> bloom.NewWithEstimates(0);
 	// block 2: m2 holds a string and a number -> convertColumnToStrings adds to that filter: never returns
 	sc = handScenario("degenerate_bloom_hang", "known:degenerate_bloom_hangs_flush_with_tiny_cardinality_limit", 1,
 		[][]string{{`{"m2":"n/a","x":1}`}, {`{"m2":null,"x":2}`}, {`{"m2":"n/a","x":3}`, `{"m2":1.5,"x":4}`}}, []Op{q(10000)})
-	sc.ToCoq = false
 	sc.Timeout = 12
 	add(sc)
 	// constant record length recorded for the segment, then the block is rewritten as text
